@@ -457,5 +457,13 @@ def r05_9(ctx):
      ctx.bad(construct, "the defaults are copied one by one under a filter: a default naming a member that a *later* definition of the same choice adds is dropped",
              fn.loc()))
 
+def r05_10(ctx):
+    """R05.10 a choice's `default` counts only under the condition of the definition it was written in: _propagate_deps ANDs the
+    definition's dependencies into the defaults of choices exactly as for symbols (C01 R01.4)."""
+    from . import c01
+    from .common import delegate
+    delegate(ctx, c01.r01_4, lambda c: "defaults" in c)
+
+
 def rules():
-    return [("R05.9", r05_9, 2), ("R05.8", r05_8, 1), ("R05.7", r05_7, 9), ("R05.1", r05_1, 2), ("R05.2", r05_2, 4), ("R05.3", r05_3, 3), ("R05.4", r05_4, 3), ("R05.5", r05_5, 6), ("R05.6", r05_6, 9)]
+    return [("R05.10", r05_10, 1), ("R05.9", r05_9, 2), ("R05.8", r05_8, 1), ("R05.7", r05_7, 9), ("R05.1", r05_1, 2), ("R05.2", r05_2, 4), ("R05.3", r05_3, 3), ("R05.4", r05_4, 3), ("R05.5", r05_5, 6), ("R05.6", r05_6, 9)]
